@@ -421,7 +421,7 @@ package oras
 //@   requires [wf] region == nil || region.limiter != nil
 //@   requires [task-holds-permit] region != nil ==> !region.ended
 //@   ensures [C03,C04:permit-held-again-on-success] result == nil && region != nil ==> !region.ended
-//@   call copyGraph requires [C02,C03:roots-share-tracker-proxy-limiter] args.proxy == proxy && args.limiter == limiter && args.tracker == tracker && args.src == src && args.dst == dst
+//@   call copyGraph requires [C02,C03,C04:roots-share-tracker-proxy-limiter] args.proxy == proxy && args.limiter == limiter && args.tracker == tracker && args.src == src && args.dst == dst
 //@   call copyGraph requires [C03:copies-the-root] args.root == root && args.opts == opts.CopyGraphOptions
 //@   call copyGraph requires [C02,C03,C04:permit-released-during-copy] region == nil || region.ended
 //@
